@@ -339,6 +339,14 @@ func (cc *Session) Run() {
 		cc.manager.GetStatisticManager().AddReadFlowCount(cc.namespace, len(data))
 		cc.executor.SetContextNamespace()
 		cc.clearKsConns(cc.executor.nsChangeIndexOld)
+		if !cc.executor.isInTransaction() {
+			// Outside a transaction a namespace change has now been dealt with (the old
+			// pinned connections are gone). Connections taken from here on belong to the
+			// new configuration: without this the connection pinned by this very command
+			// was dropped again right after it, and a BEGIN as first command after the
+			// change got the session closed.
+			cc.executor.nsChangeIndexOld = cc.executor.GetNamespace().namespaceChangeIndex
+		}
 
 		cmd := data[0]
 		data = data[1:]
